@@ -373,12 +373,8 @@ class CasXmiDeserializer:
         # Map the xmi:id attribute to xmiID
         attributes["xmiID"] = int(attributes.pop("{http://www.omg.org/XMI}id"))
 
-        if "begin" in attributes:
-            attributes["begin"] = int(attributes["begin"])
-
-        if "end" in attributes:
-            attributes["end"] = int(attributes["end"])
-
+        # The offsets are parsed with the other primitive features in the post-processing step: a feature
+        # named begin or end of a type that is not an annotation need not be an integer at all
         if "sofa" in attributes:
             attributes["sofa"] = int(attributes["sofa"])
 
